@@ -88,6 +88,7 @@ class FakeIO:
     def close(self):
         if not self.closed:
             self.closed = True
+            self.closed_at = self.rig.loop.time()
             if not self.tid:
                 return  # a socket that never connected
             self.rig.log.append(['close', self.tid, 'gc' if self.rig.in_gc else 'close'])
@@ -167,13 +168,13 @@ class VLoop(asyncio.SelectorEventLoop):
                     if io.labels[0][0] == 0:
                         _, name, arg = io.labels.pop(0)
                         if name is not None:
-                            rig.log.append(['ev', name, arg])
+                            rig.ev(name, arg)
                 return n
             if io.err:
-                rig.log.append(['ev', 'SockErr', None])
+                rig.ev('SockErr')
                 raise OSError(errno.ECONNRESET, 'scripted reset')
             if io.eof:
-                rig.log.append(['ev', 'Eof', None])
+                rig.ev('Eof')
                 return 0
             io.waiter = self.create_future()
             await io.waiter
@@ -220,7 +221,8 @@ class RecProc:
         self.rig.log.append(['api', 'down'])
 
     def connected(self, neighbor):
-        self.rig.log.append(['api', 'connected'])
+        # accept() and connect() number the transport just before reporting it
+        self.rig.log.append(['api', 'connected', self.rig.next_tid - 1])
 
     def __getattr__(self, name):
         if name.startswith('__'):
@@ -338,7 +340,7 @@ class Rig:
 
         async def establish_async(conn, *a, **k):
             ok = await real_establish(conn, *a, **k)
-            rig.log.append(['ev', 'ConnectOk' if ok else 'ConnectFail', None])
+            rig.ev('ConnectOk' if ok else 'ConnectFail')
             return ok
 
         patch(outmod.Outgoing, 'establish_async', establish_async)
@@ -346,7 +348,7 @@ class Rig:
         real_run = peermod.Peer._run
 
         async def _run(peer):
-            rig.log.append(['ev', 'Tick', None])
+            rig.ev('Tick')
             return await real_run(peer)
 
         patch(peermod.Peer, '_run', _run)
@@ -358,18 +360,21 @@ class Rig:
                 return await real_read_open(peer)
             except Notify as n:
                 if bytes(n.data).startswith(b'waited for open'):
-                    rig.log.append(['ev', 'OpenWaitExpire', None])
+                    rig.ev('OpenWaitExpire')
                 raise
 
         patch(peermod.Peer, '_read_open', _read_open)
 
-        real_gen = protomod.Protocol.new_update_generator
+        real_send_phase = peermod.Peer._send_operational_messages
 
-        def new_update_generator(proto, include_withdraw):
-            rig.log.append(['ev', 'Tick', None])
-            return real_gen(proto, include_withdraw)
+        async def _send_operational_messages(peer):
+            # first call of the send phase of a main-loop iteration: the stimulus "the loop has something
+            # to send" (queued ROUTE-REFRESH, pending routes) is logged before the sends
+            if peer.neighbor.refresh or peer.neighbor.rib.outgoing.pending():
+                rig.ev('Tick')
+            return await real_send_phase(peer)
 
-        patch(protomod.Protocol, 'new_update_generator', new_update_generator)
+        patch(peermod.Peer, '_send_operational_messages', _send_operational_messages)
 
         import exabgp.reactor.network.connection as connmod
 
@@ -390,7 +395,7 @@ class Rig:
                 return real_check_ka(timer, message, *a)
             except Notify as n:
                 if (n.code, n.subcode) == (timer.code, timer.subcode):
-                    rig.log.append(['ev', 'HoldExpire', None])
+                    rig.ev('HoldExpire')
                 raise
 
         patch(timermod.ReceiveTimer, 'check_ka', check_ka)
@@ -422,6 +427,9 @@ class Rig:
 
     def fsm(self):
         return int(self.peer.fsm.state)
+
+    def ev(self, name, arg=None):
+        self.log.append(['ev', name, arg, self.fsm()])
 
     def record_write(self, io, raw):
         for kind, c, s in classify_written(raw):
@@ -465,7 +473,7 @@ class Rig:
         io.connected()
         conn = Incoming(AFI.ipv4, '127.0.0.2', '127.0.0.1', io)
         conn.writing = lambda: True  # the kernel poll of the generator writer
-        self.log.append(['ev', 'Incoming', None])
+        self.ev('Incoming')
         denied = self.reactor.handle_connection(self.key, conn)
         # Listener.new_connections logs "refused" and drops the generator without running it
         res = 'denied' if denied else 'accepted'
@@ -533,6 +541,8 @@ def wire(kind):
     k = kind
     if k == 'OpenOk':
         return open_bytes()
+    if k == 'OpenOkLow':  # valid OPEN with a BGP identifier lower than ours (10.0.0.5)
+        return open_bytes(rid='10.0.0.1')
     if k == 'OpenBadVersion':  # 2/1
         b = bytearray(open_bytes())
         b[19] = 3
@@ -621,7 +631,9 @@ def run_script(steps, conf=CONF, gap=0.5, trace_exc=False):
     async def main():
         rig.start()
         await asyncio.sleep(0)
-        for i, (what, arg) in enumerate(steps):
+        for i, step in enumerate(steps):
+            what, arg = step[0], step[1]
+            after = step[2] if len(step) > 2 else gap
             if what == 'tick':
                 await asyncio.sleep(arg if arg else gap)
             elif what == 'connect_ok':
@@ -651,35 +663,42 @@ def run_script(steps, conf=CONF, gap=0.5, trace_exc=False):
             elif what == 'silence':
                 await asyncio.sleep(arg)
             elif what == 'teardown':
-                rig.log.append(['ev', 'Teardown', arg])
+                rig.ev('Teardown', arg)
                 rig.reactor.teardown_peer(rig.key, arg)
             elif what == 'reestablish':
-                rig.log.append(['ev', 'Reestablish', None])
+                rig.ev('Reestablish', None)
                 rig.peer.reestablish()
             elif what == 'reconfigure':
-                rig.log.append(['ev', 'Reconfigure', None])
+                rig.ev('Reconfigure', None)
                 rig.peer.reconfigure()
             elif what == 'remove':
-                rig.log.append(['ev', 'Remove', None])
+                rig.ev('Remove', None)
                 rig.peer.remove()
             elif what == 'shutdown':
-                rig.log.append(['ev', 'Shutdown', None])
+                rig.ev('Shutdown', None)
                 rig.peer.shutdown()
             elif what == 'refresh':
                 from exabgp.bgp.message.refresh import RouteRefresh
                 from exabgp.protocol.family import AFI, SAFI
 
-                rig.log.append(['ev', 'ApiRefresh', None])
+                rig.ev('ApiRefresh', None)
                 rig.neighbor.refresh.append(RouteRefresh.make_route_refresh(AFI.ipv4, SAFI.unicast))
             elif what == 'upfail':
-                rig.log.append(['ev', 'ProcessBroken', None])
+                rig.ev('ProcessBroken', None)
                 rig.proc.fail_up = True
             else:
                 raise ValueError(what)
-            await asyncio.sleep(gap)
+            await asyncio.sleep(after)
             rig.collect()
         await asyncio.sleep(gap)
         rig.end = len(rig.log)
+        now = rig.loop.time()
+        # reads still pending on a transport the implementation closed itself (they never complete)
+        rig.wedged = [
+            [io.tid, round(now - io.closed_at, 1)]
+            for io in rig.ios.values()
+            if io.closed and io.waiter is not None and not io.waiter.done()
+        ]
 
     try:
         try:
@@ -692,6 +711,8 @@ def run_script(steps, conf=CONF, gap=0.5, trace_exc=False):
             'final_fsm': rig.fsm(),
             'hung': sorted(rig.hung),
             'skipped': skipped,
+            'wedged': getattr(rig, 'wedged', []),
+            'owned_open': (rig.cur_io().tid if rig.cur_io() is not None and not rig.cur_io().closed else 0),
             'task_done': rig.task.done(),
             'vt': rig.loop.time(),
         }
